@@ -375,6 +375,7 @@ var noopPkgs = []string{
 	"github.com/temporalio/s2s-proxy/metrics",
 	"github.com/temporalio/s2s-proxy/logging",
 	"go.uber.org/zap",
+	"github.com/grpc-ecosystem/go-grpc-middleware",
 }
 
 var noopFuncPrefixes = []string{
